@@ -29,11 +29,39 @@ CONSTS = ["K", "\\K", "L"]
 SMALL_LOOK = ["A", "a", "\\A", "App\\P", "App\\Q", "App\\p"]
 
 
+# "define via a script statement" routes of op add (a script run on the VM declares the thing): eval() of a declaration,
+# include / require_once of a declaring file, a declaration inside a function body / a conditional block
+SCRIPT_ROUTES = ["eval", "include", "require_once", "infunc", "cond"]
+
+
+def normalize(c, obs):
+    """An op of a script-statement route that FAILED and changed no lookup on any VM (eval() refuses to run on a
+    TempVM at HEAD: `eval 需要 runtime.VM`) is removed from the history before the comparison with the model: the
+    model has no "refused" outcome for OAdd.  A refused op that changes anything, or one that succeeds, stays and
+    is compared as OAdd on the VM it ran on."""
+    steps = obs["steps"]
+    if len(steps) != len(c["ops"]) + 1:
+        return c, obs, 0
+    ops2, steps2 = [], [steps[0]]
+    prev = steps[0]
+    dropped = 0
+    for o, s in zip(c["ops"], steps[1:]):
+        if o["op"] == "add" and o.get("route") in SCRIPT_ROUTES and s["r"] == 1 and s["look"] == prev["look"]:
+            dropped += 1
+            continue
+        ops2.append(o)
+        steps2.append(s)
+        prev = s
+    if not dropped:
+        return c, obs, 0
+    return dict(c, ops=ops2), dict(obs, steps=steps2), dropped
+
+
 def scoped_to(t, o):
     k = o["op"]
     if k in ("retemp", "prepare"):
         return o["t"] == t
-    if k in ("add", "goc", "goi", "pkg", "cexists", "iexists", "new"):
+    if k in ("add", "goc", "goi", "pkg", "cexists", "iexists", "new", "newshort"):
         return o["vm"] == t
     return False
 
@@ -56,13 +84,16 @@ def coq_ops(ops):
         if o["op"] == "req_begin":
             cur = ntemps
             ntemps += 1
-            out.append("ONewTemp")
+            out.append("XO ONewTemp")
         elif o["op"] == "req_end":
-            out.append("ODiscard %d" % cur)
+            out.append("XO (ODiscard %d)" % cur)
+        elif o["op"] == "newshort":
+            # `namespace NS; new Short()` on the VM: which full name it stands for is computed by the model (ShortNames.v)
+            out.append("XNewShort %s %s %s" % (coq_vm(o["vm"]), coq_string(o["ns"]), coq_string(o["name"])))
         else:
             if o["op"] == "newtemp":
                 ntemps += 1
-            out.append(coq_op(o))
+            out.append("XO (%s)" % coq_op(o))
     return out
 
 
@@ -140,7 +171,7 @@ def run_impl(binary, cases):
 
 def mk(ops, names=LOOK, consts=CONSTS):
     c = {"names": names, "consts": consts, "cp": CP, "ops": ops}
-    if any(o["op"] in ("cexists", "iexists", "new") for o in ops):
+    if any(o["op"] in ("cexists", "iexists", "new", "newshort") or o.get("route") == "eval" for o in ops):
         c["scripts"] = True
     return c
 
@@ -163,9 +194,9 @@ def rand_case(rng, maxlen):
         r = rng.uniform(0.12, 0.91)
         v = vm() if forced_vm is None else (forced_vm if rng.random() < 0.8 else -1)
         if r < 0.55:
-            route = rng.choice(["parse", "parse", "parsefile", "direct", "direct"])
+            route = rng.choice(["parse", "parse", "parsefile", "direct", "direct"] + SCRIPT_ROUTES)
             name = rng.choice(SIMPLE if route != "direct" else REG)
-            if used and rng.random() < 0.2:
+            if used and rng.random() < 0.2 and route not in ("include", "require_once"):
                 f = rng.choice(used)
             else:
                 f = nextfile[0]
@@ -198,9 +229,9 @@ def rand_case(rng, maxlen):
             ops.append({"op": "newtemp"})
             ntemps += 1
         elif r < 0.55:
-            route = rng.choice(["parse", "parse", "parsefile", "direct", "direct", "direct"])
+            route = rng.choice(["parse", "parse", "parsefile", "direct", "direct", "direct"] + SCRIPT_ROUTES)
             name = rng.choice(SIMPLE if route != "direct" else REG)
-            if used and rng.random() < 0.2:
+            if used and rng.random() < 0.2 and route not in ("include", "require_once"):   # include is include_once: a fresh file
                 f = rng.choice(used)      # the same file again (same-file re-declaration)
             else:
                 f = nextfile[0]
@@ -293,10 +324,90 @@ def main(ck):
                 ops.append({"op": "req_end"})
             tt = rng.randrange(nreqs)
             cases.append((mk(ops, names=SMALL_LOOK, consts=["K"]), tt if any(scoped_to(tt, o) for o in ops) else None))
+        # "define via a script statement" family (seeded change C12-4: eval() on a TempVM delegated to the base VM):
+        # every route x kind x VM, followed by a probe / a competing definition on another VM / a TempVM created later
+        for route in SCRIPT_ROUTES:
+            for kind in "cif":
+                for v in (-1, 0, 1):
+                    d = {"op": "add", "vm": v, "kind": kind, "name": "A", "file": 1, "route": route}
+                    others = [u for u in (-1, 0, 1) if u != v]
+                    tails = [[],
+                             [{"op": "goc" if kind != "i" else "goi", "vm": others[0], "name": "A"}],
+                             [{"op": "cexists" if kind != "i" else "iexists", "vm": others[1], "name": "a"}],
+                             [{"op": "add", "vm": others[0], "kind": kind, "name": "A", "file": 2, "route": "parse"}],
+                             [{"op": "add", "vm": others[1], "kind": "c" if kind == "i" else "i", "name": "A", "file": 2, "route": rng.choice(SCRIPT_ROUTES)}],
+                             [{"op": "newtemp"}, {"op": "new" if kind == "c" else "goi", "vm": 2, "name": "A"}],
+                             [{"op": "discard", "t": max(v, 0)}, {"op": "newtemp"}, {"op": "cexists", "vm": 2, "name": "A"}]]
+                    for tail in tails:
+                        ops = pre + [d] + tail
+                        cases.append((mk(ops, names=SMALL_LOOK, consts=["K"]), v if v >= 0 else None))
+            # inside a request served by the real HotHandler, then a second request probing
+            for kind in "cif":
+                ops = [{"op": "req_begin"}, {"op": "add", "vm": 0, "kind": kind, "name": "A", "file": 1, "route": route}, {"op": "req_end"},
+                       {"op": "req_begin"}, {"op": "cexists" if kind != "i" else "iexists", "vm": 1, "name": "A"}, {"op": "req_end"}]
+                cases.append((mk(ops, names=SMALL_LOOK, consts=["K"]), 0))
+        # namespaced code using SHORT class names (seeded change C12-5: a memo of short-name resolutions shared by all
+        # parser clones): global Widget/Gadget on the base, App\Widget / App\Gadget declared on one TempVM (parse-time
+        # registration through the parser bound to it, a parsed file, an included file), `namespace App; new Widget()`
+        # probes on every VM; App\P / App\Q exist as autoload files (class / interface)
+        NSNAMES = ["Widget", "App\\Widget", "Gadget", "App\\Gadget", "P", "App\\P", "Q", "App\\Q"]
+        nfile = [100]
+
+        def ns_alpha(vms):
+            nfile[0] += 1
+            f = nfile[0]
+            a = [{"op": "add", "vm": -1, "kind": "c", "name": "Widget", "file": f, "route": "parse"},
+                 {"op": "add", "vm": -1, "kind": "c", "name": "Gadget", "file": f, "route": "direct"},
+                 {"op": "add", "vm": -1, "kind": "c", "name": "App\\Gadget", "file": f, "route": "parse"}]
+            for v in vms:
+                a += [{"op": "add", "vm": v, "kind": "c", "name": "App\\Widget", "file": f, "route": "parse"},
+                      {"op": "add", "vm": v, "kind": "c", "name": "App\\Widget", "file": f, "route": rng.choice(["parsefile", "include", "require_once"])},
+                      {"op": "add", "vm": v, "kind": "i", "name": "App\\Gadget", "file": f, "route": "parse"},
+                      {"op": "add", "vm": v, "kind": "c", "name": "Widget", "file": f, "route": rng.choice(["parse", "cond", "infunc"])}]
+            for v in [-1] + list(vms):
+                a += [{"op": "newshort", "vm": v, "ns": "App", "name": "Widget"},
+                      {"op": "newshort", "vm": v, "ns": "App", "name": "Gadget"},
+                      {"op": "newshort", "vm": v, "ns": "App", "name": rng.choice(["P", "Q", "Nope"])}]
+            return a
+
+        def fresh(ops):
+            # every add gets a file of its own (include is include_once; one declaration per file)
+            out = []
+            for o in ops:
+                if o["op"] == "add":
+                    nfile[0] += 1
+                    o = dict(o, file=nfile[0])
+                out.append(o)
+            return out
+        base_w = {"op": "add", "vm": -1, "kind": "c", "name": "Widget", "file": 1, "route": "parse"}
+        al = ns_alpha((0, 1))
+        for a in al:
+            for b in al:
+                for head in ([], [base_w]):
+                    ops = fresh(pre + head + [a, b])
+                    t = rng.choice([0, 1])
+                    cases.append((mk(ops, names=NSNAMES, consts=["K"]), t if any(scoped_to(t, o) for o in ops) else None))
+        for _ in range(500 if ck.tier == "quick" else 6000):
+            al = ns_alpha((0, 1, 2))
+            ops = fresh(pre + [{"op": "newtemp"}] + ([base_w] if rng.random() < 0.7 else []) + [rng.choice(al) for _ in range(rng.randint(3, 9))])
+            t = rng.choice([0, 1, 2])
+            cases.append((mk(ops, names=NSNAMES, consts=["K"]), t if any(scoped_to(t, o) for o in ops) else None))
+        # the same through requests served by the real HotHandler: request 1 declares App\Widget and uses the short name,
+        # request 2 (and the base in between) use the short name
+        for r1 in (["parse"], ["include"], []):
+            for first in (True, False):
+                ops = [base_w]
+                if first:
+                    ops += [{"op": "newshort", "vm": -1, "ns": "App", "name": "Widget"}]
+                ops += [{"op": "req_begin"}] + [{"op": "add", "vm": 0, "kind": "c", "name": "App\\Widget", "file": 2, "route": r} for r in r1] + \
+                       [{"op": "newshort", "vm": 0, "ns": "App", "name": "Widget"}, {"op": "req_end"},
+                        {"op": "newshort", "vm": -1, "ns": "App", "name": "Widget"},
+                        {"op": "req_begin"}, {"op": "newshort", "vm": 1, "ns": "App", "name": "Widget"}, {"op": "req_end"}]
+                cases.append((mk(fresh(ops), names=NSNAMES, consts=["K"]), 0))
         nrand = 400 if ck.tier == "quick" else 12000
         for _ in range(nrand):
             c = rand_case(rng, 40)
-            ts = sorted(set(o["vm"] for o in c["ops"] if o["op"] in ("add", "goc", "goi", "pkg", "cexists", "iexists", "new") and o["vm"] >= 0))
+            ts = sorted(set(o["vm"] for o in c["ops"] if o["op"] in ("add", "goc", "goi", "pkg", "cexists", "iexists", "new", "newshort") and o["vm"] >= 0))
             cases.append((c, rng.choice(ts) if ts else None))
 
     # run every history, and for the chosen t the purged history, on the implementation
@@ -325,6 +436,7 @@ def main(ck):
         return outs[uniq[json.dumps(c, sort_keys=True)]]
 
     terms, idx = [], []
+    ndropped = 0
     for i, (c, t) in enumerate(cases):
         o = obs_of(c)
         if "worker_death" in o:
@@ -337,7 +449,11 @@ def main(ck):
         po = obs_of(dict(c, ops=purge(t, c["ops"]))) if t is not None else None
         if po is not None and (po.get("err") or "worker_death" in po):
             po = None
-        terms.append(coq_case(c, o, t, po))
+        cn, on, nd = normalize(c, o)
+        ndropped += nd
+        if po is not None:
+            _, po, _ = normalize(dict(c, ops=purge(t, c["ops"])), po)
+        terms.append(coq_case(cn, on, t, po))
         idx.append(i)
     # spread the long random histories evenly over the shards
     perm = list(range(len(terms)))
@@ -390,7 +506,7 @@ def main(ck):
     ck.cov["hot_reload_cases"] = nhot
 
     # ---- coverage numbers (measured)
-    dist, lens = {}, {}
+    dist, lens, routes = {}, {}, {}
     nontriv = 0
     seen = set()
     for c, t in cases:
@@ -401,12 +517,14 @@ def main(ck):
         ops = c["ops"]
         for o in ops:
             dist[o["op"]] = dist.get(o["op"], 0) + 1
+            if o["op"] == "add":
+                routes[o.get("route", "direct")] = routes.get(o.get("route", "direct"), 0) + 1
         if any(o["op"] == "req_begin" for o in ops):
             dist["histories_with_HotHandler_requests"] = dist.get("histories_with_HotHandler_requests", 0) + 1
         b = min(len(ops) // 5 * 5, 40)
         lens[str(b)] = lens.get(str(b), 0) + 1
         # non-trivial: some TempVM operation and some operation on a different VM
-        tv = set(o["vm"] for o in ops if o["op"] in ("add", "goc", "goi", "pkg", "cexists", "iexists", "new"))
+        tv = set(o["vm"] for o in ops if o["op"] in ("add", "goc", "goi", "pkg", "cexists", "iexists", "new", "newshort"))
         if len(tv) >= 2 and any(v >= 0 for v in tv):
             nontriv += 1
     res = {}
@@ -414,11 +532,13 @@ def main(ck):
         for s in (o.get("steps") or []):
             res[str(s["r"])] = res.get(str(s["r"]), 0) + 1
     ck.cov["op_kind_distribution"] = dist
+    ck.cov["add_route_distribution"] = routes
+    ck.cov["script_statement_definitions_refused_without_effect(removed before the model comparison)"] = ndropped
     ck.cov["length_distribution_by_5"] = lens
     ck.cov["impl_result_codes(0 ok,1 throw,2 panic,3 dead vm)"] = res
     ck.cov["histories_with_purged_twin"] = sum(1 for _, t in cases if t is not None)
     ck.cov["exhaustive_len"] = 3 if ck.tier == "quick" else 4
     ck.samples = [cases[len(cases) // 2][0], cases[-1][0]] if cases else []
     ck.finish(level="proof", evaluations=len(order), distinct_nontrivial=nontriv,
-              rule="histories over 1 base + <=4 TempVMs: all sequences up to the stated length over a 12-op alphabet after two NewTempVM (plus a seeded sample of length 4 in the quick tier), seeded random histories of length 1..40 over an 8-name pool with case/backslash variants, same-file re-declarations, direct and parse-time registration, autoload files; each with the history purged of one TempVM's operations; non-trivial = distinct history with operations on at least two VMs one of which is a TempVM",
+              rule="histories over 1 base + <=4 TempVMs: all sequences up to the stated length over a 12-op alphabet after two NewTempVM (plus a seeded sample of length 4 in the quick tier), seeded random histories of length 1..40 over an 8-name pool with case/backslash variants, same-file re-declarations, direct and parse-time registration, autoload files; definitions made by script statements (eval / include / require_once / inside a function body / inside a conditional) for every route x kind x VM with 7 tails, namespaced code with short class names (all ordered pairs of a 21-op alphabet with and without a global Widget on the base + seeded random histories over three TempVMs + HotHandler requests); each with the history purged of one TempVM's operations; non-trivial = distinct history with operations on at least two VMs one of which is a TempVM",
               traces=len(terms))
